@@ -3,7 +3,10 @@
 import json, os, sys
 HERE = os.path.dirname(os.path.dirname(os.path.abspath(__file__)))
 sys.path.insert(0, HERE)
-TABLE = json.load(open(os.path.join(HERE, "tools", "manifest_table.json")))
+import glob
+TABLE = {}
+for fn in sorted(glob.glob(os.path.join(HERE, "tools", "manifest_entries", "C*.json"))):
+    TABLE[os.path.basename(fn)[:-5]] = json.load(open(fn))
 props = [json.loads(l)["id"] for l in open(os.path.join(HERE, "properties.jsonl"))]
 checks, na = [], []
 for pid in props:
